@@ -63,3 +63,34 @@ Proof.
   destruct F as (A & B & C & P). unfold fits; cbv zeta. repeat split; auto; apply (B tp H0 H1).
 Qed.
 End Det.
+
+(* when exactly one NUMA node holds cores of the origin map, it is visited first *)
+Lemma isort_min_first {A} (less : A -> A -> bool) (a : A) : forall l,
+  In a l -> NoDup l -> (forall y, In y l -> y <> a -> less a y = true /\ less y a = false) ->
+  exists t, isort less l = a :: t.
+Proof.
+  induction l as [|x t IH]; intros Hin Nd H; [destruct Hin|].
+  inversion Nd as [|? ? Hn Nt]; subst. simpl.
+  destruct Hin as [->|Hin].
+  - assert (Hs : forall y, In y (isort less t) -> less y a = false).
+    { intros y Hy. apply (Permutation_in _ (isort_perm less t)) in Hy.
+      apply H; [right; auto|]. intro; subst; contradiction. }
+    destruct (isort less t) as [|y s]; simpl; [eexists; reflexivity|].
+    rewrite (Hs y (or_introl eq_refl)). eexists; reflexivity.
+  - destruct (IH Hin Nt) as (t' & E).
+    { intros y Hy Hne. apply H; [right; auto|auto]. }
+    rewrite E. simpl.
+    assert (x <> a) by (intro; subst; contradiction).
+    rewrite (proj1 (H x (or_introl eq_refl) H0)). eexists; reflexivity.
+Qed.
+
+Theorem visit_order_origin_first info origin a :
+  In a (numa_nodes info) ->
+  origin_on (nr_numa (ni_cap info)) origin a = true ->
+  (forall b, In b (numa_nodes info) -> b <> a -> origin_on (nr_numa (ni_cap info)) origin b = false) ->
+  exists t, numa_visit_order info origin = a :: t.
+Proof.
+  intros Hin Ha Hb. unfold numa_visit_order. apply isort_min_first; auto.
+  - apply dedup_nodup.
+  - intros y Hy Hne. unfold numa_less. rewrite Ha, (Hb y Hy Hne). simpl. auto.
+Qed.
